@@ -118,6 +118,9 @@ func pfCoqType(kind string) string {
 	if strings.HasSuffix(kind, "?") {
 		return "option Z"
 	}
+	if strings.HasPrefix(kind, pfPtrKindPrefix) {
+		return pfPtrCoqType(kind)
+	}
 	return "Z"
 }
 
@@ -159,6 +162,7 @@ type pfFun struct {
 	resShape  [][]string
 	resFieldK [][]string
 	resNil    []bool
+	resPtr    map[int]bool // results that are pointers to a struct (emit_purefuns_ptr.go)
 	// filled by the translation
 	fixed    []pfParam
 	extra    []pfParam         // inputs discovered in the body (struct fields, store reads), in order of first use
@@ -683,6 +687,8 @@ func (t *pfTr) unary(x *ast.UnaryExpr, en pfEnv, hint string, k func(string) str
 		return t.expr(x.X, en, "", func(a string) string { return k("(wrap_i64 (- " + a + "))") })
 	case x.Op == token.ADD && (kd == "i64" || kd == "u64"):
 		return t.expr(x.X, en, hint, k)
+	case x.Op == token.AND:
+		return t.addrOf(x, en, k)
 	}
 	return t.unrec(x, "unary operator")
 }
@@ -1290,6 +1296,14 @@ func (t *pfTr) genCall(x *ast.CallExpr, g *pfFun, recv ast.Expr, en pfEnv, hint 
 					n = pfOptPrefix + n // may be a nil Int / Dec: option Z
 				}
 				outs = append(outs, n)
+				continue
+			}
+			if g.isResPtr(i) {
+				// a pointer-to-struct result: one component (an option of the fields), only handed on
+				n := t.fresh(h)
+				t.binder[n] = true
+				names = append(names, n)
+				outs = append(outs, pfPtrPrefix+n)
 				continue
 			}
 			// a struct result: one component per scalar field
